@@ -164,15 +164,16 @@ PROPS["C10"] = dict(
     bounds=SEL_BOUNDS + "; 0..2 queued packets per link; N = 2 (quick), 3 and 4 (thorough); window rules: all i32 in-flight values",
     stubs=["alloc::fmt::format -> empty String"],
     assumptions=["clock values <= 2^48 ms"],
-    outside="'no time-based recovery in classic' and 'every packet kind' (retransmit / critical-window override) are shell clauses decided "
-            "by the shell harnesses when present; closed-loop histories are covered inductively (the reference is a function of the current state)",
+    outside="'no time-based recovery in classic' (housekeeping), 'every packet kind' (the retransmit / critical-window override in handle_srt_packet) and the "
+            "per-datagram ORDER in which the +29 and +1 rules are applied to an SRTLA ACK list (process_connection_events) are shell clauses and are "
+            "NOT decided (async shell harnesses do not finish in CBMC); closed-loop histories are covered inductively (the reference is a function of "
+            "the current state)",
     harnesses=[
         H("c10::c10_classic_reference_n2", "core", desc="classic choice == reference argmax, guard off", bounds="N=2"),
         H("c06::c06_ack_classic_step", "core", desc="+29 iff in_flight*1000 > window (unbounded integers), capped"),
         H("c06::c06_conn_events_step", "core", desc="global +1 iff connected and ever heard; -100 per charged NAK; bounds"),
         H("c06::c06_nak_step", "core", desc="-100 floored at 1000"),
         H("c10::c10_get_score_formula", "core", desc="get_score == window / (in-flight + queued + 1), -1 when disconnected", timeout=1500),
-        H("c02s::c10_window_evolution_two_acks", "shell", tier="thorough", desc="two-ACK datagram in classic mode == reference rules per packet, in order (real process_connection_events; > 25 min, may exceed the budget)", bounds="2 links, 2 ACK numbers", timeout=6000, env={"VERIF_SV_CAP": "4"}),
         H("c10::c10_classic_reference_n3", "core", tier="thorough", bounds="N=3", timeout=3000),
         H("c10::c10_classic_reference_n4", "core", tier="thorough", bounds="N=4", timeout=3000),
     ],
@@ -256,9 +257,6 @@ PROPS["C02"] = dict(
         H("c02::c02_cumulative_ack_step_mid", "core", desc="cumulative ACK == set model for any mark/ack spacing (fast and slow path)", env={"VERIF_MAP_CAP": "4"}, timeout=1500),
         H("c02::c02_nak_and_srtla_ack_step_mid", "core", desc="NAK / SRTLA ACK retire exactly the held number; otherwise untouched", env={"VERIF_MAP_CAP": "4"}),
         H("c02::c02_reset_step_mid", "core", desc="resets retire everything", env={"VERIF_MAP_CAP": "4"}),
-        H("c02s::c02_srtla_ack_dispatch_idx0", "shell", tier="thorough", desc="SRTLA ACK over 3 links: arrival link first, else exactly one other holder (real process_connection_events; > 25 min, may exceed the budget)", bounds="3 links, arrival link 0", timeout=6000, env={"VERIF_SV_CAP": "4"}),
-        H("c02s::c02_srtla_ack_dispatch_idx1", "shell", tier="thorough", desc="same, arrival link 1", bounds="3 links, arrival link 1", timeout=6000, env={"VERIF_SV_CAP": "4"}),
-        H("c02s::c02_cumulative_ack_every_link", "shell", tier="thorough", desc="cumulative ACK retires on every link", bounds="2 links", timeout=6000, env={"VERIF_SV_CAP": "4"}),
         H("c02::c02_ack_order_independent_mid", "core", tier="thorough", desc="ACK a;b == ACK max(a,b)", env={"VERIF_MAP_CAP": "4"}, timeout=3000),
         H("c02::c02_history_4_mid", "core", tier="thorough", desc="4-event history vs set model", env={"VERIF_MAP_CAP": "4"}, timeout=3000),
     ],
